@@ -318,14 +318,23 @@ class CancelMonitor(Monitor):
                 out[lab] = "unfinished"
         return out
 
+    @staticmethod
+    def processed(view):
+        """the cancel request has been processed: the flag is durable, or the CancelWorkflow message carries its
+        processed record (the two commit in this order, so either one means 'accepted')"""
+        return bool(view.wf.get("canceled")) or any(m["type"] == "CancelWorkflow" and m["processed"] for m in view.queue)
+
     def step(self, ex, tr, ms):
         v = []
+        if ms["at"] is None and self.processed(tr.pre):
+            # armed from the state itself (a crash image is explored from a fresh monitor state)
+            ms = {"at": self.classify(tr.pre), "wf": tr.pre.wf["status"]}
         if ms["at"] is not None:
             for e in tr.ledger:
                 v.append({"kind": "task-executed-after-cancel", "task": f"{e['stage']}#{e['task']}",
                           "handling": handling(tr), "sig": f"ran-after-cancel:{handling(tr)}"})
             return ms, v
-        if any(tbl == "WC" and str(new) == "1" for (_s, tbl, _i, _o, new) in tr.audit):
+        if any(tbl == "WC" and str(new) == "1" for (_s, tbl, _i, _o, new) in tr.audit) or self.processed(tr.post):
             ms = {"at": self.classify(tr.post), "wf": tr.post.wf["status"]}
         return ms, v
 
